@@ -8,14 +8,36 @@ Local Open Scope N_scope.
 Definition lit_openers : list N := [40; 91; 123].
 Definition lit_pairs : list (N * N) := [(41, 40); (93, 91); (125, 123)].
 
+(* the scanner, with ITS notion of where a line comment ends (parser.rs) *)
 Definition kip_budget (cs : list N) : bres :=
-  validate_parser_budget budget_openers budget_pairs MAX_KIP_INPUT_LEN budget_len_strict
+  validate_parser_budget budget_openers budget_pairs budget_comment_terms MAX_KIP_INPUT_LEN budget_len_strict
                          MAX_KIP_NESTING_DEPTH budget_depth_strict cs.
 Definition kip_scan (cs : list N) : option bstate :=
-  bscan budget_openers budget_pairs MAX_KIP_NESTING_DEPTH budget_depth_strict b_init cs.
+  bscan budget_openers budget_pairs budget_comment_terms MAX_KIP_NESTING_DEPTH budget_depth_strict b_init cs.
 
-Definition kip_open_stack (cs : list N) : list N := open_stack lit_openers lit_pairs cs.
-Definition kip_mode_after (cs : list N) : lmode := mode_after lit_openers lit_pairs cs.
+(* the lexical reading, with the PARSER's notion of where a line comment ends
+   (json.rs skip_ws_and_comments) *)
+Definition kip_open_stack (cs : list N) : list N := open_stack lit_openers lit_pairs trivia_comment_terms cs.
+Definition kip_mode_after (cs : list N) : lmode := mode_after lit_openers lit_pairs trivia_comment_terms cs.
+
+(* The two sites of the source agree on the lexical structure: the pre-scan and the parser's
+   trivia skipper open a comment with the same two characters and end it at the same
+   characters (which the skipper consumes; a comment may also run to the end of the input);
+   strings open/close with the same quote and use the same escape character; the two trivia
+   skippers (skip_ws_and_comments, trivia1) use the same whitespace predicate and opener.
+   Every line is decided by computation on the facts generated from the source. *)
+(* the name of Rust's char::is_whitespace, the White_Space table of Kip/Lex.v is_ws *)
+Definition rust_is_whitespace : string := "is_whitespace".
+
+Lemma trivia_sites_agree :
+  budget_comment_terms = trivia_comment_terms /\
+  budget_comment_open = trivia_comment_open /\ trivia_comment_open = [c_slash; c_slash] /\
+  trivia_term_consumed = true /\ trivia_eof_ends_comment = true /\
+  budget_quote = string_quote /\ string_quote = c_quote /\
+  budget_escape = string_escape /\ string_escape = c_bslash /\
+  trivia1_ws_pred = trivia_ws_pred /\ trivia1_comment_open = trivia_comment_open /\
+  trivia_ws_pred = rust_is_whitespace.
+Proof. repeat split; reflexivity. Qed.
 
 (* the source's alphabet is the literal one, it pushes before it tests, and it runs the four
    stages in the order of the model *)
@@ -36,6 +58,7 @@ Lemma kip_bounds_nesting cs :
 Proof.
   intros H. destruct (kip_budget_ok cs H) as [Hl [s Hs]]. split; [exact Hl|].
   intros k. unfold kip_open_stack. destruct source_shape as (<- & <- & _).
+  destruct trivia_sites_agree as (<- & _).
   eapply accepted_is_within_depth. exact Hs.
 Qed.
 
@@ -55,10 +78,10 @@ Lemma kip_too_deep_justified cs :
 Proof.
   unfold kip_budget, validate_parser_budget.
   destruct (if budget_len_strict then _ else _); [discriminate|].
-  destruct (bscan _ _ _ _ _ _) eqn:Hs; [discriminate|]. intros _.
+  destruct (bscan _ _ _ _ _ _ _) eqn:Hs; [discriminate|]. intros _.
   apply refused_has_deep_prefix in Hs. destruct Hs as [k Hk]. exists k.
-  unfold kip_open_stack. destruct source_shape as (<- & <- & _).
-  revert Hk. generalize (List.length (open_stack budget_openers budget_pairs (firstn k cs))). intros n.
+  unfold kip_open_stack. destruct source_shape as (<- & <- & _). destruct trivia_sites_agree as (<- & _).
+  revert Hk. generalize (List.length (open_stack budget_openers budget_pairs budget_comment_terms (firstn k cs))). intros n.
   unfold over. destruct budget_depth_strict; intros Hk.
   - apply Nat.ltb_lt in Hk. apply Nat.lt_le_incl. exact Hk.
   - now apply Nat.leb_le in Hk.
@@ -68,9 +91,9 @@ Lemma kip_too_long_justified cs :
   kip_budget cs = BTooLong -> MAX_KIP_INPUT_LEN <= input_len cs.
 Proof.
   unfold kip_budget, validate_parser_budget. destruct budget_len_strict.
-  - destruct (_ <? _) eqn:H; [|destruct (bscan _ _ _ _ _ _); discriminate].
+  - destruct (_ <? _) eqn:H; [|destruct (bscan _ _ _ _ _ _ _); discriminate].
     intros _. apply N.ltb_lt in H. now apply N.lt_le_incl.
-  - destruct (_ <=? _) eqn:H; [|destruct (bscan _ _ _ _ _ _); discriminate].
+  - destruct (_ <=? _) eqn:H; [|destruct (bscan _ _ _ _ _ _ _); discriminate].
     intros _. now apply N.leb_le in H.
 Qed.
 
@@ -79,5 +102,6 @@ Lemma kip_agrees_with_trivia cs s :
   mode_of s = kip_mode_after cs /\ b_stack s = kip_open_stack cs.
 Proof.
   unfold kip_scan, kip_mode_after, kip_open_stack. destruct source_shape as (<- & <- & _).
+  destruct trivia_sites_agree as (<- & _).
   apply scanner_agrees_with_lexical_reading.
 Qed.
